@@ -40,6 +40,7 @@ ImplDesigned ==
       ackOnReceipt          |-> FALSE,  \* F1: client acknowledges mutate messages it only buffered
       periodicAckSwallow    |-> FALSE,  \* F4: ack of a message advances the tick past an unsent periodic change
       periodicBumpSwallow   |-> FALSE,
+      staleBuffersOnRestart |-> FALSE,  \* F15: despawn / removal buffers survive a server stop
       lateJoinerMissesEmpty |-> FALSE,  \* F21: an entity without replicated components is not sent to a client that connects later
       ackDiscarded          |-> FALSE,  \* F19: a message whose data was discarded as outdated is still acknowledged  \* F18: a structural change advances the tick past an unsent periodic change
       emptyMutateWithGraphs |-> FALSE,  \* F11: empty mutate message per tick once relation graphs exist
@@ -101,7 +102,7 @@ CliInit == [status |-> "Disconnected", updTick |-> 0, ents |-> EmptyFn, buf |-> 
             lastNotDisc |-> FALSE, panicked |-> FALSE]
 
 InitState ==
-    [srv |-> [tick |-> 0, frame |-> 0, lastRun |-> 0, running |-> TRUE, tickChanged |-> TRUE,
+    [srv |-> [tick |-> 0, frame |-> 0, lastRun |-> 0, running |-> TRUE, wasRunning |-> FALSE, tickChanged |-> TRUE,
               timerAcc |-> 0, now |-> 0,
               world |-> [e \in Ent |-> EntInit],
               remEv |-> [e \in Ent |-> {}],
@@ -403,7 +404,17 @@ WillReplicate(stPre) == stPre.srv.running /\ stPre.srv.tickChanged
 SrvFramePost(stPre, parts, graphs) ==
     LET r == IF WillReplicate(stPre) THEN Replicate(stPre, stPre.srv.frame, parts, graphs)
              ELSE [st |-> stPre, partsOK |-> TRUE]
-    IN [st |-> [r.st EXCEPT !.srv.tickChanged = FALSE], partsOK |-> r.partsOK, ran |-> WillReplicate(stPre)]
+        \* `reset` runs in the first frame after the server stopped: tick back to 0 (which marks it
+        \* changed), buffers cleared, client entities despawned
+        justStopped == stPre.srv.wasRunning /\ ~stPre.srv.running
+        s1 == [r.st EXCEPT !.srv.tickChanged = FALSE, !.srv.wasRunning = stPre.srv.running]
+        s2 == IF justStopped
+              THEN [s1 EXCEPT !.srv.tick = 0, !.srv.tickChanged = TRUE,
+                              !.srv.despawnBuf = IF Impl.staleBuffersOnRestart THEN @ ELSE EmptyFn,
+                              !.srv.removalBuf = IF Impl.staleBuffersOnRestart THEN @ ELSE EmptyFn,
+                              !.srv.cl = [c \in Client |-> SrvClientInit]]
+              ELSE s1
+    IN [st |-> s2, partsOK |-> r.partsOK, ran |-> WillReplicate(stPre), justStopped |-> justStopped]
 
 \* full result record: [st, partsOK, ran]
 SrvFrameR(st, doTick, dt, parts, graphs) ==
@@ -538,5 +549,22 @@ DisconnectF(st, c) ==
                !.cli[c].ents = [e \in DOMAIN @ |-> [@[e] EXCEPT !.alive = FALSE, !.marker = FALSE,
                                                                 !.comps = EmptyFn, !.hist = -1]]]
 DisconnectEnabled(st, c) == st.srv.cl[c].conn
+
+\* the client side of a lost connection: status, purge, the game forgets the entities of the session
+ClientDrop(cs) ==
+    [cs EXCEPT !.status = "Disconnected",
+               !.ents = [e \in DOMAIN @ |-> [@[e] EXCEPT !.alive = FALSE, !.marker = FALSE,
+                                                         !.comps = EmptyFn, !.hist = -1]]]
+
+\* the server stops: every connection is gone with it (the client entities on the server are
+\* despawned by `reset` in the server's next frame)
+StopF(st) ==
+    [st EXCEPT !.srv.running = FALSE,
+               !.net = [c \in Client |-> NetInit],
+               !.cli = [c \in Client |-> ClientDrop(@[c])]]
+StopEnabled(st) == st.srv.running
+
+StartF(st) == [st EXCEPT !.srv.running = TRUE]
+StartEnabled(st) == ~st.srv.running /\ ~st.srv.wasRunning      \* at least one frame ran since the stop
 
 =============================================================================
